@@ -9,6 +9,8 @@
 #include "pmpi_shim.c"
 #include <amgcl/adapter/crs_tuple.hpp>
 #include <amgcl/mpi/inner_product.hpp>
+#include <amgcl/value_type/complex.hpp>
+#include <amgcl/value_type/static_matrix.hpp>
 
 using namespace amgcl;
 using dv::ll; using dv::part; using dv::crsd;
@@ -30,8 +32,11 @@ static std::shared_ptr<DM> make_dm(const crsd &A, const part &rp, const part &cp
 }
 // operations on the KEPT source after move_to_backend(bprm, keep_src = true) (the allow_rebuild path of mpi::amg)
 static bool MOVED = false;
+// VIA = 1: the operand is a copy obtained through the converting constructors (double -> float -> double backend)
+static int VIA = 0;
 static std::shared_ptr<DM> make_dm_m(const crsd &A, const part &rp, const part &cp) {
     auto D = make_dm(A, rp, cp);
+    if (VIA) { DMF F(*D); D = std::make_shared<DM>(F); }
     if (MOVED) D->move_to_backend(BD::params(), true);
     return D;
 }
@@ -55,7 +60,7 @@ static std::string gather_named(const lists &L) {
 struct rec {
     vr::obj o; bool ok = true;
     rec(const char *k, const char *tag, const crsd &A, const part &rp, const part &cp) {
-        o.str("k", k).str("tag", tag).i("case", CASEID).i("np", NP).ints("rp", rp).ints("cp", cp).b("moved", MOVED);
+        o.str("k", k).str("tag", tag).i("case", CASEID).i("np", NP).ints("rp", rp).ints("cp", cp).b("moved", MOVED).i("via", VIA);
         bool ex = true; o.raw("A", vr::crs_json(A, ex)); if (!ex) ok = false;
     }
     void put() {
@@ -97,7 +102,7 @@ static void op_spmv(vr::rng &g, const char *tag, const crsd &A, const part &rp, 
     int n = A.nrows, m = A.ncols;
     std::vector<double> x = rand_vec(g, m), x2 = rand_vec(g, m), y0 = rand_vec(g, n), f = rand_vec(g, n);
     double alpha = g.range(-2, 2), beta = g.range(-2, 2);
-    auto D = make_dm(A, rp, cp);
+    auto D = make_dm_m(A, rp, cp);
     D->move_to_backend(BD::params(), keep);
     std::vector<double> xs = slice(x, cp), x2s = slice(x2, cp), y = slice(y0, rp), y2 = slice(y0, rp), fs = slice(f, rp), res(rp[R + 1] - rp[R], 0.0);
     begin_op();
@@ -163,7 +168,7 @@ static void op_product(const char *tag, const crsd &A, const part &rp, const par
 
 static void op_scale_sort(vr::rng &g, const char *tag, const crsd &A, const part &rp, const part &cp) {
     double s = g.range(-3, 3);
-    auto D = make_dm(A, rp, cp);
+    auto D = make_dm_m(A, rp, cp);
     mpi::scale(*D, s);
     { rec r("scale", tag, A, rp, cp); r.o.d("s", s).raw("D", dv::gather_dm(*D, A.ncols, r.ok)); r.put(); }
     // rows listed backwards: an unsorted input for sort_rows
@@ -220,6 +225,60 @@ static void op_spectral(vr::rng &g, const char *tag, const crsd &A, const part &
     q.put();
 }
 
+// complex value types: spmv / residual judged on the harness' own real expansion ([[a,-b],[b,a]], vectors re/im
+// interleaved) with the clauses of the real case; the inner product sum_i x_i conj(y_i) with both parts exact
+template <class T>
+static void op_complex(vr::rng &g, const char *tag, const crsd &Ar, const part &rp, const part &cp) {
+    typedef std::complex<T> Z; typedef backend::builtin<Z> BZ; typedef mpi::distributed_matrix<BZ> DMZ;
+    int n = Ar.nrows, m = Ar.ncols, nl = rp[R + 1] - rp[R], ml = cp[R + 1] - cp[R];
+    std::vector<double> im(Ar.nnz); for (auto &v : im) v = g.range(-2, 2);
+    auto cvec = [&](int k, int vmax) { std::vector<Z> v(k); for (auto &x : v) x = Z((T)g.range(-vmax, vmax), (T)g.range(-vmax, vmax)); return v; };
+    std::vector<Z> x = cvec(m, 3), x2 = cvec(m, 3), y0 = cvec(n, 3), f = cvec(n, 3), u = cvec(n, 5), w = cvec(n, 5);
+    double alpha = g.range(-2, 2), beta = g.range(-2, 2);
+    // strip with complex values
+    ptrdiff_t sn = nl; std::vector<ptrdiff_t> ptr(1, 0), col; std::vector<Z> val;
+    for (int i = rp[R]; i < rp[R + 1]; ++i) { for (ptrdiff_t j = Ar.ptr[i]; j < Ar.ptr[i + 1]; ++j) { col.push_back(Ar.col[j]); val.push_back(Z((T)Ar.val[j], (T)im[j])); } ptr.push_back(col.size()); }
+    if (col.empty()) { col.reserve(1); val.reserve(1); }
+    DMZ D(comm, std::tie(sn, ptr, col, val), (ptrdiff_t)ml);
+    D.move_to_backend();
+    typedef backend::numa_vector<Z> VZ;
+    auto sl = [&](const std::vector<Z> &v, const part &p) { VZ r(p[R + 1] - p[R]); for (int i = p[R]; i < p[R + 1]; ++i) r[i - p[R]] = v[i]; return r; };
+    VZ xs = sl(x, cp), x2s = sl(x2, cp), y = sl(y0, rp), y2 = sl(y0, rp), fs = sl(f, rp), res(nl), us = sl(u, rp), ws = sl(w, rp);
+    begin_op();
+    backend::spmv((T)alpha, D, xs, (T)beta, y);
+    backend::spmv((T)alpha, D, x2s, (T)beta, y2);
+    backend::residual(fs, D, xs, res);
+    mpi::inner_product ip(comm);
+    Z dot = ip(us, ws);
+    end_op("complex");
+    // real expansion
+    std::vector<std::vector<std::pair<int,double>>> rows(2 * n);
+    for (int i = 0; i < n; ++i) for (ptrdiff_t j = Ar.ptr[i]; j < Ar.ptr[i + 1]; ++j) { int c = Ar.col[j]; double a = Ar.val[j], b = im[j];
+        rows[2*i].push_back({2*c, a}); rows[2*i].push_back({2*c+1, -b}); rows[2*i+1].push_back({2*c, b}); rows[2*i+1].push_back({2*c+1, a}); }
+    auto Ax = vr::from_rows(2 * n, 2 * m, rows);
+    part rp2(rp), cp2(cp); for (auto &v : rp2) v *= 2; for (auto &v : cp2) v *= 2;
+    auto ex = [](const std::vector<Z> &v) { std::vector<double> r; for (auto &z : v) { r.push_back(z.real()); r.push_back(z.imag()); } return r; };
+    auto exl = [&](const VZ &v, bool &ok) { std::vector<ll> r; for (size_t i = 0; i < v.size(); ++i) { r.push_back(dv::q(v[i].real(), 0, ok)); r.push_back(dv::q(v[i].imag(), 0, ok)); } return r; };
+    const char *vt = sizeof(T) == 8 ? "complex<double>" : "complex<float>";
+    { rec r("spmv", tag, *Ax, rp2, cp2);
+      r.o.str("vt", vt).b("keep", false).d("alpha", alpha).d("beta", beta).dbls("x", ex(x)).dbls("x2", ex(x2)).dbls("y0", ex(y0)).dbls("f", ex(f));
+      r.o.raw("out", dv::gather_vec(exl(y, r.ok))).raw("out2", dv::gather_vec(exl(y2, r.ok))).raw("res", dv::gather_vec(exl(res, r.ok))); r.put(); }
+    { rec r("cinner", tag, *Ax, rp2, cp2);
+      std::vector<double> ur, ui, wr, wi; for (auto &z : u) { ur.push_back(z.real()); ui.push_back(z.imag()); } for (auto &z : w) { wr.push_back(z.real()); wi.push_back(z.imag()); }
+      std::vector<ll> mine = {dv::q(dot.real(), 0, r.ok), dv::q(dot.imag(), 0, r.ok)};
+      r.o.str("vt", vt).dbls("xr", ur).dbls("xi", ui).dbls("yr", wr).dbls("yi", wi).raw("out", dv::gather_lists(mine)); r.put(); }
+    if (sizeof(T) == 8) {
+        // block (static_matrix<double,2,1>) vectors: the inner product is the plain sum over all components
+        typedef static_matrix<double, 2, 1> R2;
+        backend::numa_vector<R2> bu(nl), bw(nl);
+        for (int i = 0; i < nl; ++i) { bu[i](0) = u[rp[R] + i].real(); bu[i](1) = u[rp[R] + i].imag(); bw[i](0) = w[rp[R] + i].real(); bw[i](1) = w[rp[R] + i].imag(); }
+        double bd = ip(bu, bw);
+        rec r("inner", tag, *Ax, rp2, cp2);
+        std::vector<ll> mine = {dv::q(bd, 0, r.ok)};
+        r.o.str("vt", "block2x1").dbls("x", ex(u)).dbls("y", ex(w)).raw("out", dv::gather_lists(mine)); r.put();
+    }
+}
+
 // move_to_backend(bprm, keep_src = true) must leave the kept local / remote blocks untouched: they
 // still describe the same global matrix, and transpose / product / remote_rows / a copy to another
 // backend taken from them afterwards equal the serial operation
@@ -244,6 +303,29 @@ static void op_kept(vr::rng &g, const char *tag, const crsd &A, const part &rp, 
     MOVED = false;
 }
 
+// a copy made by the converting constructors (distributed_matrix / comm_pattern from another backend) must be a
+// full distributed matrix: same blocks, same sizes and column shift, and usable as an operand of every kernel
+static bool converted_intact(const char *tag, const crsd &A, const part &rp, const part &cp) {
+    auto D = make_dm_m(A, rp, cp);
+    rec r("converted", tag, A, rp, cp);
+    std::vector<ll> sz = {D->glob_rows(), D->glob_cols(), D->glob_nonzeros(), D->loc_rows(), D->loc_cols(), D->loc_nonzeros(), D->loc_col_shift()};
+    r.o.raw("D", dv::gather_dm(*D, A.ncols, r.ok)).raw("sizes", dv::gather_lists(sz)); r.put();
+    // follow-up operations only on a copy whose bookkeeping is intact on every rank (a wrong column shift makes
+    // product() index out of bounds on some ranks while the others wait)
+    return dv::all_ok(D->loc_col_shift() == cp[R] && D->loc_cols() == cp[R + 1] - cp[R] && D->loc_rows() == rp[R + 1] - rp[R]
+                      && D->glob_cols() == (ptrdiff_t)A.ncols && D->glob_rows() == (ptrdiff_t)A.nrows);
+}
+static void op_converted(vr::rng &g, const char *tag, const crsd &A, const part &rp, const part &cp, const crsd &B, const part &cq) {
+    VIA = 1;
+    try {
+        bool a = converted_intact(tag, A, rp, cp), b = converted_intact(tag, B, cp, cq);
+        if (a) { op_spmv(g, tag, A, rp, cp, g.coin()); op_transpose(tag, A, rp, cp); op_scale_sort(g, tag, A, rp, cp); }
+        if (a && b) op_product(tag, A, rp, cp, B, cq);
+        if (a && b) { MOVED = true; op_product(tag, A, rp, cp, B, cq); MOVED = false; }      // converted, then moved with keep_src
+    } catch (...) { VIA = 0; MOVED = false; throw; }
+    VIA = 0;
+}
+
 static void all_ops(vr::rng &g, const char *tag, const crsd &A, const part &rp, const part &cp, const crsd &B, const part &cq, int level) {
     ++CASEID;
     GUARD(op_build(tag, A, rp, cp));
@@ -257,6 +339,9 @@ static void all_ops(vr::rng &g, const char *tag, const crsd &A, const part &rp, 
         GUARD(op_scale_sort(g, tag, A, rp, cp));
         GUARD(op_copy(g, tag, A, rp, cp));
         GUARD(op_kept(g, tag, A, rp, cp, B, cq));
+        GUARD(op_converted(g, tag, A, rp, cp, B, cq));
+        GUARD(op_complex<double>(g, tag, A, rp, cp));
+        if (CASEID % 3 == 0) GUARD(op_complex<float>(g, tag, A, rp, cp));
     }
 }
 
